@@ -140,23 +140,30 @@ rgb blocks (one `Rgb` token directly after `key =`; elsewhere the marker as an i
 very first key of the document, which both parsers reject) — and for every binary encoding of its
 scalars, both parsers return exactly `tapeOfBin doc`: the document's keys and values with their
 binary types and payloads, containers classified object / array and delimited by their `End`
-indices, ghost objects dropped.
-(Object→array *mixed* containers are not part of this document model; see `C03_faithful_mixed…`
-/ the `btexp` correspondence cases.) -/
+indices, ghost objects dropped; object→array *mixed* containers `{ k = v …  s₁ s₂ … }` (fields, then
+trailing scalars) are an `Object` with one `MixedContainer` marker in front of the first trailing
+scalar.  (Hypothesis `wfDoc`: payload widths, string lengths < 2^16, ids that are not lexemes, a
+mixed container has ≥ 1 field and ≥ 1 trailing scalar, no ghost before the first key of the
+document.) -/
 theorem C03_faithful (doc : Fields) (hw : doc.wfDoc = true) (opt : Bool) :
     parse opt doc.encode = .ok (tapeOfBin doc) := by
   cases opt
   · exact faithful_doc doc hw
   · rw [C03_fast_eq_reference]; exact faithful_doc doc hw
 
-/-- hypotheses satisfiable: `id = { {} {} "a" = { I32 1 rgb{1 2 3} { } }  {} I32 5 = rgb{1 2 3 4} }  {} 11 = { }` -/
+/-- hypotheses satisfiable, and what `tapeOfBin` looks like:
+`id = { {} {} "a" = { I32 1 rgb{1 2 3} { } }  {} I32 5 = rgb{1 2 3 4} }  {} 11 = { }  100 = { 101 = yes 7 "b" 102 }` -/
 example :
     let doc : Fields :=
       .cons 0 (.id 0x2d82) (.obj (.cons 2 (.quoted [97])
           (.arr (.cons (.sc (.i32 [1, 0, 0, 0])) (.cons (.rgb [1, 0, 0, 0] [2, 0, 0, 0] [3, 0, 0, 0] none) (.cons (.arr .nil) .nil))))
         (.cons 1 (.i32 [5, 0, 0, 0]) (.rgb [1, 0, 0, 0] [2, 0, 0, 0] [3, 0, 0, 0] (some [4, 0, 0, 0])) .nil)))
-      (.cons 1 (.id 11) (.arr .nil) .nil)
-    doc.wfDoc = true := by decide
+      (.cons 1 (.id 11) (.arr .nil)
+        (.cons 0 (.id 100) (.mixed (.cons 0 (.id 101) (.sc (.bool 1)) .nil) [.i32 [7, 0, 0, 0], .quoted [98], .id 102]) .nil))
+    doc.wfDoc = true ∧
+    tapeOfBin doc = [.token 0x2d82, .object 16, .quoted [97], .array 13, .i32 1, .token 0x243, .array 10, .u32 1, .u32 2, .u32 3,
+      .end_ 6, .array 12, .end_ 11, .end_ 3, .i32 5, .rgb 1 2 3 (some 4), .end_ 1, .token 11, .array 19, .end_ 18,
+      .token 100, .object 28, .token 101, .bool true, .mixed, .i32 7, .quoted [98], .token 102, .end_ 21] := by decide
 
 /-- Faithfulness on flat documents: for every document whose values are all scalars — keys and values
 of any of the ten binary scalar types, any number of ghost `{}` objects in front of every key
